@@ -15,7 +15,7 @@
     the correspondence on every run.  C04_summary_of_opt_record says which record those OPT values come
     from: the one OPT record of the declarative reading of the three record sections. *)
 From DV Require Import Model.Base Model.Parser Model.Header Model.Readers Spec.NameSpec Spec.RecordSpec Proofs.Hoare Proofs.HeaderBits
-  Proofs.SummaryBits Proofs.ReadersLabels Proofs.QuestionSpec Proofs.EdnsFacts Proofs.WalkSkip Proofs.EdnsPlain.
+  Proofs.SummaryBits Proofs.ReadersLabels Proofs.QuestionSpec Proofs.EdnsFacts Proofs.WalkSkip Proofs.EdnsPlain Spec.PacketSpec Proofs.HeaderFields.
 Local Open Scope N_scope.
 
 Theorem C04_flags_word : forall w x i, w < 65536 ->
@@ -77,3 +77,13 @@ Proof. vm_compute. eexists. split; reflexivity. Qed.
 
 Example C04_sample : w_flags 65535 (Some 32768) = 2147518448 /\ f_dnssec (w_flags 256 (Some 32768)) = true.
 Proof. vm_compute. split; reflexivity. Qed.
+
+(** id, opcode and rcode: the getters read the transaction id as the first 16-bit word, the rcode as the low four bits of the
+    flag word and the opcode as its bits 11..14 (RFC 1035, 4.1.1), for every buffer that has these bytes *)
+Theorem C04_id_opcode_rcode : forall p t w, bytes_ok p -> u16_at p 0 t -> u16_at p 2 w ->
+  pk_tid p = Ok t /\ pk_rcode p = Ok (w mod 16) /\ pk_opcode p = Ok ((w / 2048) mod 16).
+Proof. exact header_fields. Qed.
+Print Assumptions C04_id_opcode_rcode.
+
+Example C04_getters_on_the_object : forall v, pp_tid v = pk_tid (pp_packet v) /\ pp_rcode v = pk_rcode (pp_packet v) /\ pp_opcode v = pk_opcode (pp_packet v).
+Proof. intros. repeat split. Qed.
